@@ -67,6 +67,8 @@ def cases(draw, tier="quick"):
         k = draw(st.integers(1, len(present)))
         sub = sorted(draw(st.permutations(present))[:k])
         case["expected"] = {"labels": sub, "as": draw(st.sampled_from(["array", "list", "index"]))}
+        if lab["kind"] == "floatint" and all(float(x).is_integer() for x in sub) and draw(st.booleans()):
+            case["expected"]["cast"] = "int"
     # numba compiles per (func, dtype): use it sparingly
     engines = ["numpy", "flox", "numbagg", None]
     if draw(st.integers(0, 5 if tier == "quick" else 3)) == 0 and dt in ("<f8", "<i8", "<f4", "|b1"):
